@@ -78,7 +78,7 @@ pub fn max_end(items: &Vec<BedEntry>) -> (r: u32)
 //@rule R7 min=1
 //@rule R8
 //@presub /use libdeflater::\{CompressionLvl, Compressor\};\n/ => ""
-//@presub /let mut compressor = Compressor::new\(CompressionLvl::default\(\)\);\s*let max_sz = compressor\.zlib_compress_bound\(bytes\.len\(\)\);\s*let mut compressed_data = vec!\[0; max_sz\];\s*let actual_sz = compressor\s*\.zlib_compress\(&bytes, &mut compressed_data\)\s*\.unwrap\(\);\s*compressed_data\.resize\(actual_sz, 0\);/ => let compressed_data = deflate_vec(&bytes);
+//@presub /let mut compressor = Compressor::new\(CompressionLvl::default\(\)\);\s*let max_sz = compressor\.zlib_compress_bound\(bytes\.len\(\)\);\s*let mut compressed_data = vec!\[0; max_sz\];\s*let actual_sz = compressor\s*\.zlib_compress\(&bytes, &mut compressed_data\)\s*\.unwrap\(\);\s*compressed_data\.resize\(actual_sz, 0\);/ => let compressed_data = deflate_vec(&bytes); let actual_sz = compressed_data.len(); let max_sz = actual_sz;
 //@presub /items_in_section\s*\.iter\(\)\s*\.map\(\|item\| item\.end\)\s*\.fold\(items_in_section\[0\]\.end, u32::max\)/ => max_end(&items_in_section) min=0
 //@sub /let mut bytes = Vec::with_capacity\(items_in_section\.len\(\) \* 30\);/ => let mut bytes = Sink::with_capacity(0);
 //@sub /\(bytes, 0\)/ => (bytes.bytes, 0)
